@@ -1515,7 +1515,7 @@ void OPNMIDIplay::panic()
     for(size_t chan = 0; chan < m_midiChannels.size(); chan++)
     {
         for(uint8_t note = 0; note < 128; note++)
-            noteOff(chan, note);
+            noteOff(chan, note, true); // also the short drum notes that wait for their minimal life time
     }
 }
 
